@@ -33,7 +33,9 @@ REQUIRED_MONITORS = ["patch-test-poisson", "patch-test-reaction-diffusion", "pat
                      "dirichlet-values-reproduced", "projection-identity-whole", "projection-identity-restricted-basis",
                      "projection-identity-elements-keyword", "projection-identity-boundary", "projection-identity-curved"]
 REQUIRED_REACH = ["mixed-dirichlet-neumann", "pure-dirichlet", "boundary-projection-used", "nodal-values-used",
-                  "non-affine-degree-one", "graded-mesh", "vector-element-projection", "hdiv-hcurl-projection"]
+                  "non-affine-degree-one", "graded-mesh", "vector-element-projection", "hdiv-hcurl-projection",
+                  "neumann-part-as-overlapping-tags", "constrained-by-enforce-then-condense",
+                  "two-splits-on-one-assembled-system"]
 
 # (record name, degree of the manufactured solution)
 COMPLETE = {
@@ -152,6 +154,7 @@ def scalar_patch(ctx, k, kind):
     basis = skfem.CellBasis(mesh, elem, intorder=order)
     A = skfem.BilinearForm(lambda u_, v, w: dot(grad(u_), grad(v)) + c * u_ * v).assemble(basis)
     b = skfem.LinearForm(lambda v, w: f_fn(w.x) * v).assemble(basis)
+    b0 = b
     Dfac, Nfac = boundary_split(rng, mesh, allow_empty_dirichlet=reaction)
     if kind == "wedge" and Nfac.size:
         Dfac, Nfac = np.asarray(mesh.boundary_facets()).astype(np.int32), np.zeros(0, dtype=np.int32)  # no FacetBasis for prisms
@@ -159,6 +162,13 @@ def scalar_patch(ctx, k, kind):
         if d == 1:
             # 1-D: boundary "integral" is a point evaluation with outward normal
             fb = skfem.FacetBasis(mesh, rec.make(), facets=Nfac)
+        elif Nfac.size >= 2 and k % 3 == 0:
+            # the natural part named by a list of two overlapping facet tags: their union, each facet once
+            N1 = Nfac[: max(1, (2 * Nfac.size) // 3)]
+            N2 = Nfac[Nfac.size // 3:]
+            fb = skfem.FacetBasis(mesh.with_boundaries({"n1": N1, "n2": N2}), rec.make(), facets=["n1", "n2"],
+                                  intorder=min(order, {"tet": 19, "tri": 12}.get(kind, order)))
+            ctx.reached("neumann-part-as-overlapping-tags")
         else:
             fb = skfem.FacetBasis(mesh, rec.make(), facets=Nfac, intorder=min(order, {"tet": 19, "tri": 12}.get(kind, order)))
         b = b + skfem.LinearForm(lambda v, w: sum(g_fns[i](w.x) * w.n[i] for i in range(d)) * v).assemble(fb)
@@ -183,9 +193,28 @@ def scalar_patch(ctx, k, kind):
             xD[Dd.flatten()] = u_fn(basis.doflocs[:, Dd.flatten()])
         else:
             xD = basis.project(lambda x: u_fn(x))   # the exact coefficient vector restricted by condense to D
+        xe = None
+        if k % 2 == 0 and Nfac.size and can_project:
+            # another split of the same boundary solved first from the same assembled A and load vector: the whole
+            # boundary constrained (by enforce); the mixed split below then reuses A
+            Dall = basis.get_dofs()
+            with np.errstate(all="ignore"):
+                xall = skfem.FacetBasis(mesh, rec.make(), intorder=min(order, {"tet": 19, "tri": 12}.get(kind, order))).project(lambda x: u_fn(x))
+            x1 = skfem.solve(*skfem.enforce(A, b0, x=xall, D=Dall))
+            e1, n1 = l2_error(skfem.CellBasis(mesh, rec.make(), intorder=order), x1, u_fn)
+            ctx.check(monitor, e1 <= 1e-7 * (n1 + 1e-300) + 1e-12, mech=f"patch-test:{name.split('(')[0]}:first-of-two-splits",
+                      error=e1, norm=n1, **tag)
+            ctx.reached("two-splits-on-one-assembled-system")
+        if k % 2 == 0:
+            # the other way of constraining, on the same assembled system, before it is condensed
+            xe = skfem.solve(*skfem.enforce(A, b, x=xD, D=Dd))
+            ctx.reached("constrained-by-enforce-then-condense")
         xh = skfem.solve(*skfem.condense(A, b, x=xD, D=Dd))
         ctx.close("dirichlet-values-reproduced", xh[Dd.flatten()], xD[Dd.flatten()], rtol=0, scale=1.0, atol=0.0,
                   mech="expanded-solution-differs-from-prescribed-values", **tag)
+        if xe is not None:
+            ctx.close("enforce-and-condense-agree", xe, xh, rtol=1e-7, scale=float(np.abs(xh).max()) + 1e-300,
+                      mech="enforce-and-condense-solutions-differ", **tag)
         if rec.nodal and can_project:
             # second spelling of the same data: nodal values; both must give the same boundary vector
             xN = np.zeros(basis.N)
@@ -257,7 +286,14 @@ def elasticity_patch(ctx, k, kind):
     A = linear_elasticity(lam, mu).assemble(basis)
     b = skfem.LinearForm(lambda v, w: sum(f_fns[i](w.x) * v[i] for i in range(d))).assemble(basis)
     Dfac, Nfac = boundary_split(rng, mesh, allow_empty_dirichlet=False)
-    if Nfac.size:
+    if Nfac.size >= 2 and k % 3 == 0:
+        N1 = Nfac[: max(1, (2 * Nfac.size) // 3)]
+        N2 = Nfac[Nfac.size // 3:]
+        fb = skfem.FacetBasis(mesh.with_boundaries({"n1": N1, "n2": N2}), skfem.ElementVector(base.make()),
+                              facets=("n1", "n2"), intorder=min(order, 12 if kind == "tri" else order))
+        ctx.reached("neumann-part-as-overlapping-tags")
+        b = b + skfem.LinearForm(lambda v, w: sum(s_fns[i][j](w.x) * w.n[j] * v[i] for i in range(d) for j in range(d))).assemble(fb)
+    elif Nfac.size:
         fb = skfem.FacetBasis(mesh, skfem.ElementVector(base.make()), facets=Nfac, intorder=min(order, 12 if kind == "tri" else order))
         b = b + skfem.LinearForm(lambda v, w: sum(s_fns[i][j](w.x) * w.n[j] * v[i] for i in range(d) for j in range(d))).assemble(fb)
     Dd = basis.get_dofs(Dfac)
